@@ -386,6 +386,9 @@ CHECK_DEADLOCK FALSE
 """
 
 
+C13_LONGEST_CAP = 2500     # per (catalogue, version, level) configuration, thorough tier
+
+
 def check_c13(out, tier, seed):
     """Version inference: operational = declarative on the spec for every order of <= D line
     kinds; every such order replayed incrementally, through Gfa(list/str) and from_file."""
@@ -396,6 +399,7 @@ def check_c13(out, tier, seed):
     jobs = []
     sp = [0, 0]
     nseq = 0
+    nsampled = [0]
     plan = [("ver", "standard", v) for v in ("none", "gfa1", "gfa2")] + \
            [("vern", "standard", v) for v in ("none", "gfa1", "gfa2")] + \
            [("rgfa", "rgfa", v) for v in ("none", "gfa1", "gfa2")]
@@ -417,6 +421,14 @@ def check_c13(out, tier, seed):
             sp[1] += st[1]
             seqs = sorted({tuple(x - 1 for x in tlc.tla_value(r)[1]) for r in tlc.parse_tuples(o, "H")})
             nseq += len(seqs)
+            if tier != "quick":
+                # the invariants above are exhaustive at this depth; the replay is exhaustive one line
+                # shorter and takes a seeded sample of the longest sequences (bounded run time)
+                longest = [h for h in seqs if len(h) >= depth]
+                if len(longest) > C13_LONGEST_CAP:
+                    keep = set(random.Random(seed * 1000 + len(seqs)).sample(longest, C13_LONGEST_CAP))
+                    seqs = [h for h in seqs if len(h) < depth or h in keep]
+                    nsampled[0] += len(longest) - C13_LONGEST_CAP
             flush = dict(k="flush", text="", id="", id2="")
             entries = ["list", "file"] if tier == "quick" else ["list", "str", "file", "filecrlf"]
             validate = dict(k="validate", text="", id="", id2="")
@@ -458,7 +470,8 @@ def check_c13(out, tier, seed):
             out.others[pp] = out.others.get(pp, 0) + 1
     out.add_cov(states=sp[1] + r["states"], transitions=sp[0] + r["states"], spec_states=sp[1], spec_sequences=nseq,
                 traces_validated_against_impl=len(traces), events_validated=r["states"],
-                evaluations=len(traces), distinct_nontrivial=len(traces), exhaustive=True, max_lines=depth,
+                evaluations=len(traces), distinct_nontrivial=len(traces), exhaustive=True, max_lines=depth - (1 if nsampled[0] else 0),
+                longest_sequences_not_replayed=nsampled[0],
                 rule="every sequence of <= %d distinct line kinds over the 16 kinds of the 'ver' catalogue "
                      "(H without VN, H VN 1.0/2.0/3.0, S GFA1/GFA2 syntax, L C P E F G O U, custom, comment), the 10 kinds of "
                      "'vern' (segments whose names look like tags, in both syntaxes, with links/edges/paths over them) and the rGFA catalogue, cut at "
